@@ -13,8 +13,8 @@ VERIF = os.path.dirname(os.path.abspath(__file__))
 sys.path.insert(0, VERIF)
 from nifsym import build, runner  # noqa: E402
 
-EVID = os.path.join(VERIF, "evidence")
-REPLAYS = os.path.join(VERIF, "replays")
+EVID = os.environ.get("VERIF_EVIDENCE_DIR") or os.path.join(VERIF, "evidence")
+REPLAYS = os.environ.get("VERIF_REPLAY_DIR") or os.path.join(VERIF, "replays")
 
 
 def load_known():
@@ -275,7 +275,7 @@ class Check:
                     continue
                 nat = run_native(tw, p, timeout=60)
                 good = (nat["rc"] == 0 and nat["reach"] == sm.get("reached", []) and
-                        (sm.get("out_sha") is None or nat["out_sha"] == sm["out_sha"]))
+                        (sm.get("out_sha") is None or not getattr(spec, "VALIDATE_OUT_SHA", True) or nat["out_sha"] == sm["out_sha"]))
                 if good:
                     validated += 1
                 else:
